@@ -10,6 +10,14 @@ import (
 )
 
 func main() {
+	if os.Args[1] == "-draw" {
+		drawProbe(os.Args[2])
+		return
+	}
+	if os.Args[1] == "-mkcache" {
+		mkcache(os.Args[2])
+		return
+	}
 	src, _ := os.ReadFile(os.Args[1])
 	pages, err := render.Layout(string(src), nil, false, true, render.NewFonts("pango"))
 	if err != nil {
